@@ -256,7 +256,7 @@ def moment_matching(dat, mu, sigma, glob_mu, glob_sigma):
 def map_from_ppm(ppm, mask=None):
     x = np.zeros(ppm.shape[0:-1], dtype='uint8')
     if mask is None:
-        mask = ppm == 0
+        mask = np.ones(ppm.shape[0:-1], dtype=bool)
     x[mask] = ppm[mask].argmax(-1) + 1
     return x
 
